@@ -69,6 +69,7 @@ def check(repo, tier):
                 for ch, sc, res, exc in run_solver(repo, which, d, solver, rep, thr, mr):
                     entry = f'{SLE}.{which}'
                     n_contr += l2rules.typing_obligations(run, 'C07', 'D1', repo, sc, scen, mods)
+                    l2rules.relative_cut_obligations(run, 'C07', 'D5', repo, sc, scen, mods)
                     if exc is not None:
                         run.oblige('D2' if 'None' in exc.message else 'D1', (entry, scen, 'raises'), False)
                         l2rules.raised_finding(run, 'C07', 'D2' if 'None' in exc.message else 'D1', repo, entry, scen, exc)
